@@ -24,14 +24,24 @@ def GSess (par : Nat → Sess) (P : Nat → Nat → Nat → Prop) (l : L) : Prop
 def GPar (par : Nat → Sess) : Prop :=
   ∀ s, (par s).est = true ∧ (par s).sockOpen = true ∧ 1 ≤ (par s).nstart ∧ (par s).maxRtx < 256
 
-/-- a pending entry is armed for the next slot of the schedule that started with its first transmission -/
+/-- a pending entry is armed for the next slot of the schedule that started with its first transmission, and all its
+transmissions so far (numbers 0 … cnt) have been made, each at its slot -/
 def PendOk (pu : Prop) (out : List Out) (p : Nat × PMsg) : Prop :=
-  pu → ∃ t0, Out.tx t0 p.2.sess p.2.mid 0 true ∈ out ∧ p.1 = sched t0 p.2.T (p.2.cnt + 1)
+  pu → ∃ t0, (∀ j, j ≤ p.2.cnt → Out.tx (sched t0 p.2.T j) p.2.sess p.2.mid j true ∈ out) ∧
+    p.1 = sched t0 p.2.T (p.2.cnt + 1)
 
-/-- every transmission so far is on the schedule of its message -/
+/-- every transmission so far is on the schedule of its message; every TOO_MANY_RETRIES NACK so far came exactly one
+slot after the last of ALL `MAX_RETRANSMIT + 1` transmissions of its message, each made at its slot -/
 def OutOk (pu : Prop) (par : Nat → Sess) (P : Nat → Nat → Nat → Prop) (out : List Out) : Prop :=
-  pu → ∀ t s mid k c, Out.tx t s mid k c ∈ out →
-    c = true ∧ ∃ t0 T, Out.tx t0 s mid 0 true ∈ out ∧ t = sched t0 T k ∧ k ≤ (par s).maxRtx ∧ P s mid T
+  pu → (∀ t s mid k c, Out.tx t s mid k c ∈ out →
+    c = true ∧ ∃ t0 T, Out.tx t0 s mid 0 true ∈ out ∧ t = sched t0 T k ∧ k ≤ (par s).maxRtx ∧ P s mid T) ∧
+  (∀ t s mid, Out.nack t s .retries mid true ∈ out →
+    ∃ t0 T, (∀ j, j ≤ (par s).maxRtx → Out.tx (sched t0 T j) s mid j true ∈ out) ∧
+      t = sched t0 T ((par s).maxRtx + 1) ∧ P s mid T)
+
+/-- an output that is neither a transmission nor a TOO_MANY_RETRIES NACK -/
+def Plain (o : Out) : Prop :=
+  (∀ t s mid k c, o ≠ .tx t s mid k c) ∧ (∀ t s mid, o ≠ .nack t s .retries mid true)
 
 structure FInv (pu : Prop) (par : Nat → Sess) (P : Nat → Nat → Nat → Prop) (l : L) : Prop where
   base : l.q.base ≤ l.now
@@ -65,36 +75,76 @@ theorem pendOk_mono {pu : Prop} {out : List Out} {p : Nat × PMsg} (o : Out) (h 
     PendOk pu (o :: out) p := by
   intro hpu'
   obtain ⟨t0, h1, h2⟩ := h hpu'
-  exact ⟨t0, List.mem_cons_of_mem _ h1, h2⟩
+  exact ⟨t0, fun j hj => List.mem_cons_of_mem _ (h1 j hj), h2⟩
 
 theorem outOk_cons_other {pu : Prop} {par : Nat → Sess} {P : Nat → Nat → Nat → Prop} {out : List Out} (o : Out)
-    (h' : OutOk pu par P out) (ho : ∀ t s mid k c, o ≠ .tx t s mid k c) : OutOk pu par P (o :: out) := by
-  intro hpu' t s mid k c hm
-  have h := h' hpu' 
-  simp only [List.mem_cons] at hm
-  rcases hm with hm | hm
-  · exact absurd hm.symm (ho t s mid k c)
-  · obtain ⟨hc, t0, T, h1, h2⟩ := h t s mid k c hm
-    exact ⟨hc, t0, T, List.mem_cons_of_mem _ h1, h2⟩
+    (h' : OutOk pu par P out) (ho : Plain o) : OutOk pu par P (o :: out) := by
+  intro hpu'
+  have h := h' hpu'
+  constructor
+  · intro t s mid k c hm
+    simp only [List.mem_cons] at hm
+    rcases hm with hm | hm
+    · exact absurd hm.symm (ho.1 t s mid k c)
+    · obtain ⟨hc, t0, T, h1, h2⟩ := h.1 t s mid k c hm
+      exact ⟨hc, t0, T, List.mem_cons_of_mem _ h1, h2⟩
+  · intro t s mid hm
+    simp only [List.mem_cons] at hm
+    rcases hm with hm | hm
+    · exact absurd hm.symm (ho.2 t s mid)
+    · obtain ⟨t0, T, h1, h2⟩ := h.2 t s mid hm
+      exact ⟨t0, T, fun j hj => List.mem_cons_of_mem _ (h1 j hj), h2⟩
 
 theorem outOk_cons_tx {pu : Prop} {par : Nat → Sess} {P : Nat → Nat → Nat → Prop} {out : List Out} (t s mid k : Nat)
     (h' : OutOk pu par P out)
     (hn' : pu → ∃ t0 T, Out.tx t0 s mid 0 true ∈ Out.tx t s mid k true :: out ∧ t = sched t0 T k ∧
       k ≤ (par s).maxRtx ∧ P s mid T) :
     OutOk pu par P (Out.tx t s mid k true :: out) := by
-  intro hpu' t' s' mid' k' c hm
+  intro hpu'
   have h := h' hpu'
-  have hn := hn' hpu' 
-  simp only [List.mem_cons] at hm
-  rcases hm with hm | hm
-  · injection hm with h1 h2 h3 h4 h5
-    subst h1 h2 h3 h4 h5
-    exact ⟨rfl, hn⟩
-  · obtain ⟨hc, t0, T, h1, h2⟩ := h t' s' mid' k' c hm
-    exact ⟨hc, t0, T, List.mem_cons_of_mem _ h1, h2⟩
+  have hn := hn' hpu'
+  constructor
+  · intro t' s' mid' k' c hm
+    simp only [List.mem_cons] at hm
+    rcases hm with hm | hm
+    · injection hm with h1 h2 h3 h4 h5
+      subst h1 h2 h3 h4 h5
+      exact ⟨rfl, hn⟩
+    · obtain ⟨hc, t0, T, h1, h2⟩ := h.1 t' s' mid' k' c hm
+      exact ⟨hc, t0, T, List.mem_cons_of_mem _ h1, h2⟩
+  · intro t' s' mid' hm
+    simp only [List.mem_cons] at hm
+    rcases hm with hm | hm
+    · cases hm
+    · obtain ⟨t0, T, h1, h2⟩ := h.2 t' s' mid' hm
+      exact ⟨t0, T, fun j hj => List.mem_cons_of_mem _ (h1 j hj), h2⟩
+
+theorem outOk_cons_nack {pu : Prop} {par : Nat → Sess} {P : Nat → Nat → Nat → Prop} {out : List Out} (t s mid : Nat)
+    (h' : OutOk pu par P out)
+    (hn' : pu → ∃ t0 T, (∀ j, j ≤ (par s).maxRtx → Out.tx (sched t0 T j) s mid j true ∈ out) ∧
+      t = sched t0 T ((par s).maxRtx + 1) ∧ P s mid T) :
+    OutOk pu par P (Out.nack t s .retries mid true :: out) := by
+  intro hpu'
+  have h := h' hpu'
+  constructor
+  · intro t' s' mid' k' c hm
+    simp only [List.mem_cons] at hm
+    rcases hm with hm | hm
+    · cases hm
+    · obtain ⟨hc, t0, T, h1, h2⟩ := h.1 t' s' mid' k' c hm
+      exact ⟨hc, t0, T, List.mem_cons_of_mem _ h1, h2⟩
+  · intro t' s' mid' hm
+    simp only [List.mem_cons] at hm
+    rcases hm with hm | hm
+    · injection hm with h1 h2 h3 h4 h5
+      subst h1 h2 h4
+      obtain ⟨t0, T, g1, g2⟩ := hn' hpu'
+      exact ⟨t0, T, fun j hj => List.mem_cons_of_mem _ (g1 j hj), g2⟩
+    · obtain ⟨t0, T, h1, h2⟩ := h.2 t' s' mid' hm
+      exact ⟨t0, T, fun j hj => List.mem_cons_of_mem _ (h1 j hj), h2⟩
 
 theorem finv_emit_other {pu : Prop} {par : Nat → Sess} {P : Nat → Nat → Nat → Prop} {l : L} (o : Out) (hi : FInv pu par P l)
-    (ho : ∀ t s mid k c, o ≠ .tx t s mid k c) : FInv pu par P (l.emit o) :=
+    (ho : Plain o) : FInv pu par P (l.emit o) :=
   ⟨hi.base, hi.sess, hi.nodes, fun p hp => pendOk_mono o (hi.pend p hp), outOk_cons_other o hi.outs ho⟩
 
 theorem gsess_setS {par : Nat → Sess} {P : Nat → Nat → Nat → Prop} {l : L} (hs : GSess par P l) (s ca : Nat)
@@ -111,6 +161,8 @@ theorem gsess_congr {par : Nat → Sess} {P : Nat → Nat → Nat → Prop} {l l
   have : l'.getS s = l.getS s := by simp [L.getS, h]
   rw [this]; exact hs s
 
+theorem sched_zero (t0 T : Nat) : sched t0 T 0 = t0 := by simp [sched]
+
 /-- a fresh Confirmable whose first transmission has just been emitted is armed for `now + T` -/
 theorem finv_enq_fresh {pu : Prop} {par : Nat → Sess} {P : Nat → Nat → Nat → Prop} (l : L) (n : Node) (hi : FInv pu par P l)
     (hf : Fut pu l) (hn : NodeOk par P n) (hc : n.cnt = 0)
@@ -123,7 +175,13 @@ theorem finv_enq_fresh {pu : Prop} {par : Nat → Sess} {P : Nat → Nat → Nat
     simp only [] at hp
     rw [hab] at hp
     rcases mem_pinsert.1 hp with rfl | hp
-    · exact fun _ => ⟨l.now, htx, by simp [toP, hc, sched]⟩
+    · refine fun _ => ⟨l.now, fun j hj => ?_, by simp [toP, hc, sched]⟩
+      have hj0 : j = 0 := by
+        have h0 : (toP (mxOf par) n).cnt = 0 := hc
+        simp only [] at hj
+        omega
+      subst hj0
+      rw [sched_zero]; exact htx
     · exact hi.pend p hp
   · rw [fut_iff pu (mxOf par)]
     intro hpu' p hp
@@ -132,8 +190,6 @@ theorem finv_enq_fresh {pu : Prop} {par : Nat → Sess} {P : Nat → Nat → Nat
     rcases mem_pinsert.1 hp with rfl | hp
     · simp
     · exact (fut_iff pu (mxOf par) l).1 hf hpu' p hp
-
-theorem sched_zero (t0 T : Nat) : sched t0 T 0 = t0 := by simp [sched]
 
 /-- the drain loop of `coap_session_connected`: every delayed Confirmable that gets NSTART room is transmitted for
 the first time now and armed for `now + T` -/
@@ -211,6 +267,34 @@ theorem L_ext {l l' : L} (h1 : l'.now = l.now) (h2 : l'.q = l.q) (h3 : l'.sess =
     l' = l := by
   cases l; cases l'; simp_all
 
+theorem drain_out_mono : ∀ (fuel : Nat) (l : L) (s : Nat) (o : Out), o ∈ l.out → o ∈ (drain fuel l s).out := by
+  intro fuel
+  induction fuel with
+  | zero => intro l s o h; exact h
+  | succ f ih =>
+    intro l s o h
+    simp only [drain]
+    split
+    · exact h
+    · split
+      · exact h
+      · split
+        · exact h
+        · apply ih
+          split
+          · exact List.mem_cons_of_mem _ h
+          · exact List.mem_cons_of_mem _ h
+
+theorem release_out_mono (l : L) (s : Nat) (o : Out) (h : o ∈ l.out) : o ∈ (release l s).out := by
+  unfold release
+  simp only []
+  split
+  · exact h
+  · split
+    · unfold connected
+      exact drain_out_mono _ _ s o h
+    · exact h
+
 /-- `coap_retransmit` of a node that was due exactly now and was on its schedule -/
 theorem retransmit_finv {pu : Prop} {par : Nat → Sess} {P : Nat → Nat → Nat → Prop} (hp : GPar par) (l : L) (n : Node)
     (hi : FInv pu par P l) (hf : Fut pu l) (hn : NodeOk par P n) (hpn : PendOk pu l.out (l.now, toP (mxOf par) n)) :
@@ -234,7 +318,8 @@ theorem retransmit_finv {pu : Prop} {par : Nat → Sess} {P : Nat → Nat → Na
           out := Out.tx l.now n.sess n.mid (n.cnt + 1) true :: l.out } :=
       L_ext hnowR hres.2.2 hsess (by rw [hres.1, hcon])
     rw [heq]
-    have hpn' : pu → ∃ t0, Out.tx t0 n.sess n.mid 0 true ∈ l.out ∧ l.now = sched t0 n.timeout (n.cnt + 1) := hpn
+    have hpn' : pu → ∃ t0, (∀ j, j ≤ n.cnt → Out.tx (sched t0 n.timeout j) n.sess n.mid j true ∈ l.out) ∧
+        l.now = sched t0 n.timeout (n.cnt + 1) := hpn
     have hab := absP_enqueue (mxOf par) l.q l.now (n.timeout * 2 ^ (n.cnt + 1)) { n with cnt := n.cnt + 1 }
       (Or.inr hi.base)
     refine ⟨⟨enqueue_base_le _ _ hi.base, ?_, ?_, ?_, ?_⟩, ?_, rfl⟩
@@ -249,13 +334,19 @@ theorem retransmit_finv {pu : Prop} {par : Nat → Sess} {P : Nat → Nat → Na
       rcases mem_pinsert.1 hp' with rfl | hp'
       · intro hpu'
         obtain ⟨t0, ht0, hd0⟩ := hpn' hpu'
-        refine ⟨t0, List.mem_cons_of_mem _ ht0, ?_⟩
-        simp only [toP]
-        rw [Coap.Timer.sched_succ t0 n.timeout (n.cnt + 1), ← hd0]
+        refine ⟨t0, fun j hj => ?_, ?_⟩
+        · simp only [toP] at hj ⊢
+          by_cases hjn : j = n.cnt + 1
+          · subst hjn; rw [← hd0]; simp
+          · exact List.mem_cons_of_mem _ (ht0 j (by omega))
+        · simp only [toP]
+          rw [Coap.Timer.sched_succ t0 n.timeout (n.cnt + 1), ← hd0]
       · exact pendOk_mono _ (hi.pend p hp')
     · refine outOk_cons_tx _ _ _ _ hi.outs (fun hpu' => ?_)
       obtain ⟨t0, ht0, hd0⟩ := hpn' hpu'
-      exact ⟨t0, n.timeout, List.mem_cons_of_mem _ ht0, hd0, Nat.succ_le_of_lt hc, hP⟩
+      have h00 := ht0 0 (Nat.zero_le _)
+      rw [sched_zero] at h00
+      exact ⟨t0, n.timeout, List.mem_cons_of_mem _ h00, hd0, Nat.succ_le_of_lt hc, hP⟩
     · rw [fut_iff pu (mxOf par)]
       intro hpu' p hp'
       simp only [] at hp'
@@ -269,7 +360,16 @@ theorem retransmit_finv {pu : Prop} {par : Nat → Sess} {P : Nat → Nat → Na
       simp [hc', hcon]
     rw [heq]
     have hrel := release_finv hp l n.sess hi hf
-    exact ⟨finv_emit_other _ hrel.1 (by intros; simp), hrel.2.1, hrel.2.2⟩
+    have hmono := release_out_mono l n.sess
+    have hcm : n.cnt = (par n.sess).maxRtx := by omega
+    have hpn' : pu → ∃ t0, (∀ j, j ≤ n.cnt → Out.tx (sched t0 n.timeout j) n.sess n.mid j true ∈ l.out) ∧
+        l.now = sched t0 n.timeout (n.cnt + 1) := hpn
+    refine ⟨⟨hrel.1.base, hrel.1.sess, hrel.1.nodes, fun p hp' => pendOk_mono _ (hrel.1.pend p hp'), ?_⟩,
+      hrel.2.1, hrel.2.2⟩
+    refine outOk_cons_nack _ _ _ hrel.1.outs (fun hpu' => ?_)
+    obtain ⟨t0, ht0, hd0⟩ := hpn' hpu'
+    refine ⟨t0, n.timeout, fun j hj => hmono _ (ht0 j (by omega)), ?_, hP⟩
+    rw [hrel.2.2, ← hcm]; exact hd0
 
 /-- the due loop: under punctuality whatever fires is due exactly now -/
 theorem dueLoop_finv {pu : Prop} {par : Nat → Sess} {P : Nat → Nat → Nat → Prop} (hp : GPar par) :
@@ -380,7 +480,7 @@ theorem step_finv {pu : Prop} {par : Nat → Sess} {P : Nat → Nat → Nat → 
     rcases hpc : prepareCore l with ⟨l', w⟩
     have e : l' = dueLoop (dueFuel l) l := by rw [← prepareCore_fst, hpc]
     subst e
-    exact finv_emit_other _ this (by intros; simp)
+    exact finv_emit_other _ this ⟨by intros; simp, by intros; simp⟩
   | submit s con mid r =>
     have hf : Fut pu l := hpu
     obtain ⟨hcon, hT, h64⟩ := hok
@@ -427,7 +527,7 @@ theorem step_finv {pu : Prop} {par : Nat → Sess} {P : Nat → Nat → Nat → 
         ⟨rfl, rfl, hT, Nat.zero_le _, h64, hPs⟩
       have := finv_enq_fresh _ _ hi2 hf hnode rfl (by simp [L.emit, L.setS])
       simp only [waitAck, hmod]
-      exact finv_emit_other _ this.1 (by intros; simp)
+      exact finv_emit_other _ this.1 ⟨by intros; simp, by intros; simp⟩
     · -- no room: the message waits in the delay queue
       have hgt : gate (l.getS s) true = true := by
         have : (l.getS s).conActive ≥ (l.getS s).nstart := by rw [hg]; simp only []; omega
@@ -435,8 +535,8 @@ theorem step_finv {pu : Prop} {par : Nat → Sess} {P : Nat → Nat → Nat → 
       simp only [Msg.step, submit, hso, hgt]
       simp only [Bool.not_true, Bool.false_eq_true, if_false, if_true]
       split
-      · exact finv_emit_other _ hi (by intros; simp)
-      · apply finv_emit_other _ _ (by intros; simp)
+      · exact finv_emit_other _ hi ⟨by intros; simp, by intros; simp⟩
+      · apply finv_emit_other _ _ ⟨by intros; simp, by intros; simp⟩
         have key : ∀ X : Sess, X = { par s with conActive := ca, delayq := dq ++
               [{ sess := s, mid := mid, t := 0,
                  timeout := calcTimeout (l.getS s).atI (l.getS s).atF (l.getS s).arfI (l.getS s).arfF r,
@@ -477,11 +577,11 @@ theorem step_finv {pu : Prop} {par : Nat → Sess} {P : Nat → Nat → Nat → 
       rcases hrm : removeNode l.q.nodes s mid with ⟨sent, rest⟩
       rw [hrm] at hi1 hf1 hk
       cases sent with
-      | none => exact ⟨finv_emit_other _ hi1 (by intros; simp), hf1⟩
+      | none => exact ⟨finv_emit_other _ hi1 ⟨by intros; simp, by intros; simp⟩, hf1⟩
       | some n =>
         have := release_finv hp _ s hi1 hf1
         simp only [(hk n rfl).1, if_true]
-        exact ⟨finv_emit_other _ this.1 (by intros; simp), this.2.1⟩
+        exact ⟨finv_emit_other _ this.1 ⟨by intros; simp, by intros; simp⟩, this.2.1⟩
     exact afterRx_finv hp _ this.1 this.2
   | rxNon s mid tok => exact absurd hok (by simp [EvG])
   | rxBad s mid => exact absurd hok (by simp [EvG])
@@ -507,7 +607,7 @@ theorem gpar_of (sess : List Sess) (h : ∀ se ∈ sess, SessOk se) : GPar (parO
 
 theorem finv_init (pu : Prop) (P : Nat → Nat → Nat → Prop) (now0 : Nat) (sess : List Sess) (h : ∀ se ∈ sess, SessOk se) :
     FInv pu (parOf sess) P (Msg.init now0 sess) := by
-  refine ⟨Nat.zero_le _, ?_, by simp [Msg.init], by simp [Msg.init, absP], by intro _ t s mid k c hm; simp [Msg.init] at hm⟩
+  refine ⟨Nat.zero_le _, ?_, by simp [Msg.init], by simp [Msg.init, absP], by intro _; constructor <;> (intros; simp_all [Msg.init])⟩
   intro s
   have hok := parOf_ok sess h s
   refine ⟨(parOf sess s).conActive, [], ?_, hok.2.2.2.2.2, by simp⟩
